@@ -361,10 +361,26 @@ func runC10(o *Out) {
 		done := make(chan struct{})
 		go func() { wg.Wait(); close(done) }()
 		close(start)
-		limit := 90 * time.Second
-		select {
-		case <-done:
-		case <-time.After(limit):
+		// a round is given up only when no operation at all completed during a whole window:
+		// slow (race build, one processor, a loaded machine) is not stuck
+		window := 240 * time.Second
+		stuck := false
+	WAIT:
+		for last := int64(-1); ; {
+			select {
+			case <-done:
+				break WAIT
+			case <-time.After(window):
+				now := atomic.LoadInt64(&executed)
+				if now == last {
+					stuck = true
+					break WAIT
+				}
+				last = now
+				o.count("slow_round_windows", 1)
+			}
+		}
+		if stuck {
 			atomic.AddInt32(&hangs, 1)
 			buf := make([]byte, 1<<20)
 			n := runtime.Stack(buf, true)
